@@ -189,7 +189,7 @@ def _sample(case):
 def plan(tier: str) -> list[dict]:
     if tier == "quick":
         return [{"max_n": 5, "examples": 800, "cost": 3} for _ in range(4)] + [{"max_n": 6, "examples": 150, "cost": 3}]
-    return ([{"max_n": 5, "examples": 3000, "cost": 10} for _ in range(12)] + [{"max_n": 7, "examples": 400, "cost": 10} for _ in range(4)])
+    return ([{"max_n": 5, "examples": 40000, "cost": 10} for _ in range(12)] + [{"max_n": 7, "examples": 4000, "cost": 10} for _ in range(4)])
 
 
 def run_shard(spec: dict, ctx: Ctx) -> None:
